@@ -20,18 +20,22 @@ def run_timeout(seconds: float, func, *args, **kwargs):
         raise RuntimeError('Time limiter not compatible with monkey-patched gevent threading module!')
 
     def _inner_run():
-        with multiprocessing.pool.ThreadPool(processes=1) as pool:
-            thread = pool.apply(lambda: threading.current_thread())
+        thread = result = None
+        try:
+            with multiprocessing.pool.ThreadPool(processes=1) as pool:
+                thread = pool.apply(lambda: threading.current_thread())
 
-            try:
-                return pool.apply_async(func, args, kwargs).get(timeout=seconds)
-            except multiprocessing.TimeoutError:
-                pass
-
-        if thread.is_alive():
-            ctypes.pythonapi.PyThreadState_SetAsyncExc(
-                ctypes.c_long(thread.ident), ctypes.py_object(KeyboardInterrupt()))
-            thread.join()
+                result = pool.apply_async(func, args, kwargs)
+                try:
+                    return result.get(timeout=seconds)
+                except multiprocessing.TimeoutError:
+                    pass
+        finally:
+            # Also reached if this thread is itself interrupted while waiting (nested time limiters)
+            if result is not None and not result.ready() and thread.is_alive():
+                ctypes.pythonapi.PyThreadState_SetAsyncExc(
+                    ctypes.c_long(thread.ident), ctypes.py_object(KeyboardInterrupt()))
+                thread.join()
         raise TimeoutError
 
     # This call flow ensure that the memory of the "killed" thread is cleared
